@@ -5,14 +5,19 @@ constants, arbitrary and honest segment), SlowCycleTrace (batched trace validati
 
 Binding: the real SyncGroup.start()/run() runs on harness.simloop (virtual time; the module's
 `monotonic` is the loop clock) with a real SimpleEtherCat attached to harness.simbus.  Terminals
-are real EBPFTerminal objects with PacketDesc variables (bytes, 16-bit words, bits), FMMU and
+are real EBPFTerminal objects with PacketDesc and ProcessDesc variables (bytes, 16-bit words,
+bits 0-7, ProcessDesc through PDO entries as wide as or wider than the variable), FMMU and
 directly addressed; the group really maps the FMMUs and walks the AL state machine through the
 simulated terminals.  For the group's cyclic frames the transport policy lets the simulated
 segment process the frame (inputs come out of the terminals' memory through the FMMUs the group
 programmed, outputs go in) and then overrides the returned working counters as the case script
 says (correct, off by a few, 0, >= 256 with matching or non-matching low byte); a frame may
 also be left unanswered or be answered only after the group has given up on it and sent again
-(the harness then delivers the late response to whatever the group is waiting for).  Recording
+(the harness then delivers the late response to whatever the group is waiting for).  In two of
+five cases the group's task is cancelled (while it waits for a response, or between an update
+and the next frame) and the SAME group object is started again with the same devices, whose
+variables have been read and written before; that is a Restart in the trace and the run after
+it has to meet the same demands.  Recording
 devices (Device subclasses with TerminalVar links) log in update() what they read and set.
 The trace - frames on the wire, responses, and per cycle the device log with wkc_errors - is
 validated by TLC against SlowCycle; Python decides nothing.
@@ -28,6 +33,7 @@ LEVEL = "model_checking"
 
 PROFILES = ("low", "low", "low", "high_match", "high_mismatch", "high_mixed")
 MODES = ("fmmu", "direct", "mixed")
+RESTARTS = (1, 3)                        # index % 5 of the cases that start the group twice
 LOSSKINDS = ("none", "lost", "late")     # the kind of unanswered frame a run is sure to contain
 JAVA_ENV = {"JAVA_TOOL_OPTIONS": "-XX:ParallelGCThreads=2"}
 
@@ -82,6 +88,22 @@ def gen_case(seed, index, big=False):
     if not tvars:
         t0 = terms[0]
         tvars.append(dict(term=0, sm="in" if t0["in_sz"] else "out", pos=0, n=1, bit=-1))
+    # how the terminal class declares the variable: PacketDesc(sm, pos, size), or
+    # ProcessDesc(index, subindex[, size]) resolved through the terminal's PDO mapping, whose
+    # entry may be wider than the variable (a bit - bit 0 included - of a byte or word entry,
+    # a byte of a word entry) or exactly it (then without an explicit size)
+    for v in tvars:
+        sz = terms[v["term"]]["in_sz" if v["sm"] == "in" else "out_sz"]
+        v["desc"] = rng.choice(["packet", "process"])
+        fits_word = v["pos"] + 2 <= sz
+        if v["bit"] >= 0:
+            v["entry"], v["explicit"] = rng.choice("BH" if fits_word else "B"), True
+        elif v["n"] == 1:
+            v["entry"] = rng.choice("BH" if fits_word else "B")
+            v["explicit"] = v["entry"] == "H" or rng.random() < 0.3
+        else:
+            v["entry"] = rng.choice("HB")
+            v["explicit"] = v["entry"] == "B" or rng.random() < 0.3
     ndev = rng.randint(1, 3)
     links = [[] for _ in range(ndev)]        # per device: indices into tvars
     for vi, v in enumerate(tvars):
@@ -101,51 +123,62 @@ def gen_case(seed, index, big=False):
         top = 256 ** v["n"] - 1
         return rng.choice([0, 1, top, rng.randint(0, top), rng.randint(0, top)])
 
-    # what the devices do in update number c (1-based)
-    cycles = []
-    for c in range(1, ncycles + 1):
-        plans = []
-        for d in range(ndev):
-            ops = []
-            for vi in links[d]:
-                v = tvars[vi]
-                if v["sm"] == "in":
-                    ops += [("get", vi)] * rng.choice([0, 1, 1, 1, 2])
-                else:
-                    ops += [("set", vi, value(v)) for _ in range(rng.choice([0, 1, 1, 2]))]
-            rng.shuffle(ops)
-            plans.append(ops)
-        cycles.append(dict(plans=plans))
-    # what the segment does with the j-th cyclic frame the group sends (1-based): answered in
-    # time, never answered ("lost"), or answered after the group's 20 ms patience ("late")
     losskind = LOSSKINDS[(index // (len(PROFILES) * len(MODES))) % len(LOSSKINDS)]
-    nframes = ncycles + 6
-    forced = (rng.randint(2, ncycles), 0)     # a wrong counter from the second frame on, for sure
-    forced_loss = rng.choice([f for f in range(2, ncycles + 1) if f != forced[0]])
-    frames = []
-    for j in range(1, nframes + 1):
-        wk = []
-        for dg in range(8):
-            wrong = rng.random() < 0.45 or (j, dg) == forced
-            wk.append(_wkc_kind(rng, profile, wrong, must_high=(j, dg) == forced))
-        fate, delay = "answer", rng.choice([0, 0, 0.0005, 0.004, 0.009, 0.012, 0.019])
-        r = rng.random()
-        if losskind != "none" and j != forced[0] and j <= ncycles + 2:
-            if j == forced_loss:
-                fate = losskind
-            elif r < 0.08:
-                fate = "lost"
-            elif r < 0.16:
-                fate = "late"
-        if fate == "late":
-            delay = rng.choice([0.021, 0.026, 0.033, 0.047])
-        frames.append(dict(
-            fate=fate, delay=delay, wkc=wk,
-            inputs=[[rng.choice([0, 255, rng.randint(0, 255), rng.randint(0, 255)])
-                     for _ in range(t["in_sz"])] for t in terms]))
+
+    def one_run(ncycles):
+        """one start() of the group: the devices' plans, the segment's script, and how the
+        run's task ends ("send": cancelled while it waits for the answer to the frame after
+        the last update; "sleep": cancelled between that update and the next frame)"""
+        # what the devices do in update number c (1-based)
+        cycles = []
+        for c in range(1, ncycles + 1):
+            plans = []
+            for d in range(ndev):
+                ops = []
+                for vi in links[d]:
+                    v = tvars[vi]
+                    if v["sm"] == "in":
+                        ops += [("get", vi)] * rng.choice([0, 1, 1, 1, 2])
+                    else:
+                        ops += [("set", vi, value(v)) for _ in range(rng.choice([0, 1, 1, 2]))]
+                rng.shuffle(ops)
+                plans.append(ops)
+            cycles.append(dict(plans=plans))
+        # what the segment does with the j-th cyclic frame the group sends (1-based): answered in
+        # time, never answered ("lost"), or answered after the group's 20 ms patience ("late")
+        nframes = ncycles + 6
+        forced = (rng.randint(2, ncycles), 0)     # a wrong counter from the second frame on, for sure
+        forced_loss = rng.choice([f for f in range(2, ncycles + 1) if f != forced[0]] or [0])
+        frames = []
+        for j in range(1, nframes + 1):
+            wk = []
+            for dg in range(8):
+                wrong = rng.random() < 0.45 or (j, dg) == forced
+                wk.append(_wkc_kind(rng, profile, wrong, must_high=(j, dg) == forced))
+            fate, delay = "answer", rng.choice([0, 0, 0.0005, 0.004, 0.009, 0.012, 0.019])
+            r = rng.random()
+            if losskind != "none" and j != forced[0] and j <= ncycles + 2:
+                if j == forced_loss:
+                    fate = losskind
+                elif r < 0.08:
+                    fate = "lost"
+                elif r < 0.16:
+                    fate = "late"
+            if fate == "late":
+                delay = rng.choice([0.021, 0.026, 0.033, 0.047])
+            frames.append(dict(
+                fate=fate, delay=delay, wkc=wk,
+                inputs=[[rng.choice([0, 255, rng.randint(0, 255), rng.randint(0, 255)])
+                         for _ in range(t["in_sz"])] for t in terms]))
+        return dict(ncycles=ncycles, cycles=cycles, frames=frames,
+                    stop=rng.choice(["send", "send", "sleep"]))
+
+    # the same group object may be started again after its task ended (same devices, whose
+    # variables have been written before): 2 of 5 cases, independent of profile/mode/losskind
+    nruns = 1 + (index % 5 in RESTARTS) + (big and index % 5 == 3)
+    runs = [one_run(ncycles)] + [one_run(rng.randint(2, 4)) for _ in range(nruns - 1)]
     return dict(seed=seed, index=index, big=big, profile=profile, mode=mode, ncycles=ncycles,
-                losskind=losskind, terms=terms, vars=tvars, ndev=ndev, links=links,
-                cycles=cycles, frames=frames,
+                losskind=losskind, terms=terms, vars=tvars, ndev=ndev, links=links, runs=runs,
                 cycletime=rng.choice([0.01, 0.01, 0.002, 0.03]))
 
 
@@ -174,7 +207,8 @@ def _wkc_kind(rng, profile, wrong, must_high):
 class _Run:
     def __init__(self):
         self.ev = []
-        self.nupd = 0           # updates recorded so far
+        self.run = 0            # which start() of the group is running
+        self.nupd = 0           # updates recorded so far in this run
         self.lost = self.late = self.stray = 0
         self.ran, self.reads, self.sets = [], [], []
         self.returned, self.sent, self.expected = [], [], []
@@ -190,21 +224,27 @@ def run_case(case, budget=60000):
     terms, tvars = case["terms"], case["vars"]
 
     # terminal classes with PacketDesc variables
-    tclasses = []
+    tclasses, tpdos = [], []
     for i, t in enumerate(terms):
-        attrs = {}
+        attrs, pdos = {}, {}
         for vi, v in enumerate(tvars):
             if v["term"] == i:
                 size = v["bit"] if v["bit"] >= 0 else ("B" if v["n"] == 1 else "H")
-                attrs[f"pv{vi}"] = E.PacketDesc(SyncManager.IN if v["sm"] == "in"
-                                                else SyncManager.OUT, v["pos"], size)
+                sm = SyncManager.IN if v["sm"] == "in" else SyncManager.OUT
+                if v["desc"] == "packet":
+                    attrs[f"pv{vi}"] = E.PacketDesc(sm, v["pos"], size)
+                else:
+                    pdos[0x6000 + 0x10 * vi, 1] = (sm, v["pos"], v["entry"])
+                    attrs[f"pv{vi}"] = E.ProcessDesc(0x6000 + 0x10 * vi, 1, size) \
+                        if v["explicit"] else E.ProcessDesc(0x6000 + 0x10 * vi, 1)
         tclasses.append(type(f"Term{i}", (E.EBPFTerminal,), attrs))
+        tpdos.append(pdos)
 
     class RecDev(E.Device):
         def update(self):
             h.ran.append(self.idx + 1)
-            plan = case["cycles"][h.nupd]["plans"][self.idx] \
-                if h.nupd < len(case["cycles"]) else []
+            cyc = case["runs"][h.run]["cycles"]
+            plan = cyc[h.nupd]["plans"][self.idx] if h.nupd < len(cyc) else []
             for op in plan:
                 name = f"v{op[1]}"
                 if op[0] == "get":
@@ -233,6 +273,7 @@ def run_case(case, budget=60000):
             o.pdo_in_off = t["in_off"] if t["in_sz"] else None
             o.pdo_out_off = t["out_off"] if t["out_sz"] else None
             o.fmmu_used = [None] * t["nfmmu"]
+            o.pdos = tpdos[i]
             objs.append(o)
         devs = []
         for d in range(case["ndev"]):
@@ -244,7 +285,24 @@ def run_case(case, budget=60000):
         E.SyncGroup.packet_index = 1000
         sg = E.SyncGroup(ec, devs)
         sg.cycletime = case["cycletime"]
-        state = dict(frames=0)
+        state = dict(frames=0, run=0, restart=False, cancelled=False, t_send=0.0)
+
+        def cancel(r):
+            if r == state["run"] and not state["cancelled"] and sg.task is not None \
+                    and not sg.task.done():
+                state["cancelled"] = True
+                sg.task.cancel()
+
+        def snapshot():
+            return dict(
+                terms=[dict(station=t["station"], fmmu=bool(t["fmmu"]), in_off=t["in_off"],
+                            out_off=t["out_off"],
+                            fm=[dict(logical=f["logical"], length=f["length"], phys=f["phys"],
+                                     dir=f["type"]) for f in s.fmmus()])
+                       for t, s in zip(terms, sims)],
+                vars=[dict(term=v["term"] + 1, sm=v["sm"], pos=v["pos"], n=v["n"], bit=v["bit"])
+                      for v in tvars],
+                ndev=case["ndev"])
 
         def harvest():
             if h.ran or h.reads or h.sets:
@@ -258,14 +316,24 @@ def run_case(case, budget=60000):
                          len=d["len"], data=list(d["data"]), wkc=d["wkc"])
                     for d in simbus.parse_frame(frame)["dgrams"][1:]]
 
-        def deliver(resp, ret, exp):
+        def deliver(resp, ret, exp, idx, nudged=False):
             """the response reaches the master: it is the answer to the frame on the wire if
             the master is waiting for one with this index, else a stray frame (not an event)"""
-            fut = ec.wait_futures.get(sg.packet_index)
+            if not nudged and abs(loop.time() - (state["t_send"] + 0.02)) < 1e-7:
+                # the very instant the group's patience with the frame on the wire ends: whether
+                # asyncio hands the response over or times out is a tie the property does not
+                # speak about; the segment is a little later instead
+                loop.call_later(1e-5, deliver, resp, ret, exp, idx, True)
+                return
+            fut = ec.wait_futures.get(idx)
             if fut is not None and not fut.done():
                 h.returned.append(ret)
                 h.expected = exp
                 h.ev.append(dict(t="recv", dg=dgs(resp)))
+                cur = case["runs"][state["run"]]
+                if cur["stop"] == "sleep" and h.nupd + 1 >= cur["ncycles"]:
+                    # ends the run shortly after the update that this response causes
+                    loop.call_later(1e-4, cancel, state["run"])
             else:
                 h.stray += 1
             ec.datagram_received(resp, None)
@@ -274,28 +342,25 @@ def run_case(case, budget=60000):
             if sg.task is None or simbus.frame_index(frame) != sg.packet_index:
                 return [("return", 0.0)]
             harvest()
+            cur = case["runs"][state["run"]]
+            if h.cfg is None:
+                h.cfg = snapshot()
+            if state["restart"]:
+                state["restart"] = False
+                h.ev.append(dict(t="restart", cfg=snapshot()))
             if h.ev and h.ev[-1]["t"] == "send":
                 # sent again with no response accepted in between: the group gave up waiting
                 h.ev.append(dict(t="lost", errs=int(sg.wkc_errors)))
             state["frames"] += 1
+            state["t_send"] = loop.time()
             j = state["frames"]
-            if h.cfg is None:
-                h.cfg = dict(
-                    terms=[dict(station=t["station"], fmmu=bool(t["fmmu"]), in_off=t["in_off"],
-                                out_off=t["out_off"],
-                                fm=[dict(logical=f["logical"], length=f["length"], phys=f["phys"],
-                                         dir=f["type"]) for f in s.fmmus()])
-                           for t, s in zip(terms, sims)],
-                    vars=[dict(term=v["term"] + 1, sm=v["sm"], pos=v["pos"], n=v["n"], bit=v["bit"])
-                          for v in tvars],
-                    ndev=case["ndev"])
             sent = dgs(frame)
             h.ev.append(dict(t="send", dg=sent))
             h.sent.append([d["wkc"] for d in sent])
-            if h.nupd >= case["ncycles"] or j > len(case["frames"]):
-                loop.call_soon(sg.task.cancel)
+            if h.nupd >= cur["ncycles"] or j > len(cur["frames"]):
+                loop.call_soon(cancel, state["run"])
                 return [("lose",)]
-            sc = case["frames"][j - 1]
+            sc = cur["frames"][j - 1]
             if sc["fate"] == "lost":
                 h.lost += 1
                 return [("lose",)]
@@ -316,27 +381,40 @@ def run_case(case, budget=60000):
                 exp.append(e)
             h.late += sc["fate"] == "late"
             if sc["delay"] <= 0:
-                loop.call_soon(deliver, bytes(resp), ret, exp)
+                loop.call_soon(deliver, bytes(resp), ret, exp, sg.packet_index)
             else:
-                loop.call_later(sc["delay"], deliver, bytes(resp), ret, exp)
+                loop.call_later(sc["delay"], deliver, bytes(resp), ret, exp, sg.packet_index)
             return [("lose",)]
 
         saved = E.monotonic
         E.monotonic = loop.time
         tr, sendtask = simbus.attach(ec, bus, policy)
         try:
-            task = sg.start()
-            try:
-                await task
-                harvest()
-                h.ev.append(dict(t="ended"))
-            except asyncio.CancelledError:
-                harvest()
-                if h.nupd < case["ncycles"] and state["frames"] <= len(case["frames"]):
-                    h.ev.append(dict(t="cancelled"))
-            except Exception as e:      # the run loop died: an outcome for the spec to judge
-                harvest()
-                h.ev.append(dict(t="crash", exc=f"{type(e).__name__}: {e}"[:300]))
+            for r, cur in enumerate(case["runs"]):
+                # r > 0: the same group object, with the same devices, is started again
+                state.update(run=r, frames=0, restart=r > 0, cancelled=False)
+                h.nupd, h.run = 0, r
+                task = sg.start()
+                over = False
+                try:
+                    await task
+                    harvest()
+                    over = "ended"
+                except asyncio.CancelledError:
+                    harvest()
+                    if not state["cancelled"]:
+                        over = "cancelled"
+                except Exception as e:      # the run loop died: an outcome for the spec to judge
+                    harvest()
+                    over = "crash"
+                    exc = f"{type(e).__name__}: {e}"[:300]
+                if state["restart"]:        # started again but never got to send a frame
+                    state["restart"] = False
+                    h.ev.append(dict(t="restart", cfg=snapshot()))
+                    over = over or "nothing sent after restart"
+                if over:
+                    h.ev.append(dict(t=over, exc=exc) if over == "crash" else dict(t=over))
+                    break
         finally:
             E.monotonic = saved
             sendtask.cancel()
@@ -408,6 +486,9 @@ def _judge(ctx, case, h, result):
     else:
         lk["none"] += 1
     ctx.extra["stray_responses"] = ctx.extra.get("stray_responses", 0) + h.stray
+    nrestart = sum(1 for e in h.ev if e["t"] == "restart")
+    rs = ctx.extra.setdefault("runs_by_number_of_restarts", {})
+    rs[str(nrestart)] = rs.get(str(nrestart), 0) + 1
     ctx.extra.setdefault("runs_by_kind", {}).setdefault(key, 0)
     ctx.extra["runs_by_kind"][key] += 1
     if matched == length:
@@ -420,6 +501,7 @@ def _judge(ctx, case, h, result):
     fail = dict(
         seed=case["seed"], index=case["index"], big=case["big"], mode=case["mode"],
         profile=case["profile"], ncycles=case["ncycles"], losskind=case["losskind"],
+        starts=len(case["runs"]), stops=[r["stop"] for r in case["runs"]],
         frames_lost=h.lost, frames_late=h.late, stray_responses=h.stray,
         events=[e["t"] for e in h.ev],
         rejected_at=matched, rejected_event=bad["t"], rejected_cycle=cyc, why=why,
@@ -496,7 +578,8 @@ def run(ctx):
                 "byte, word and bit variables, 1-3 recording devices) run for 4-6 [8] cycles of the "
                 "real SyncGroup.run with scripted inputs, response delays, returned working counters "
                 "and (two thirds of the runs) frames that are never answered or answered after the "
-                "group's 20 ms patience, in the second cycle or later; non-trivial = some datagram returns a wrong counter in a cycle >= 2 and "
+                "group's 20 ms patience, in the second cycle or later, and (two fifths of the runs) the "
+                "same group cancelled and started again for 2-4 more cycles; non-trivial = some datagram returns a wrong counter in a cycle >= 2 and "
                 "the devices both read an input and set an output")
     ctx.exhaustive = False
     ctx.extra["gating_runs"] = len(cases) - n_extra
@@ -505,6 +588,8 @@ def run(ctx):
         "a frame is answered in time, late or never, but at most once (no duplicated responses); a "
         "response that arrives while the group waits for one is the response to the frame on the "
         "wire, one that arrives while it waits for none is a stray frame and not an event",
+        "no response arrives at the very instant the group's 20 ms wait for the frame on the wire "
+        "ends (asyncio then drops a response it has already taken; the harness delivers 10 us later)",
         "a send that follows a send with no response accepted in between is read as the group "
         "having given up waiting (Lose); the 20 ms themselves are not part of the specification",
         "the first (identification) datagram of a frame is not a process-data datagram",
